@@ -800,7 +800,7 @@ func ruleTransactionScope(r *Run, rule, key string, scope []string) {
 					}
 				}
 			}
-			if e.Kind == EvCall && !e.Deferred && firstStmt < 0 {
+			if e.Kind == EvCall && !e.Deferred && firstStmt < 0 && e.Depth == 0 {
 				k := CalleeKey(e)
 				if k == "zombiezen.com/go/sqlite.Conn.Prepare" || k == "zombiezen.com/go/sqlite.Stmt.Step" || (k != key && inSet(scope, k) && scopeExecutes(r, k)) {
 					firstStmt = j
@@ -828,7 +828,7 @@ func ruleTransactionScope(r *Run, rule, key string, scope []string) {
 			}
 			for j := firstStmt; j < len(p.Ev); j++ {
 				e := p.Ev[j]
-				if e.Kind != EvCall || e.Deferred {
+				if e.Kind != EvCall || e.Deferred || e.Depth > 0 {
 					continue
 				}
 				u := UseOfResult(fl, p, j)
@@ -856,7 +856,7 @@ func errorDiscipline(r *Run, rule string, fn *Func) {
 			n    int
 		}
 		sites := map[token.Pos]*site{}
-		paths = OwnOnly(paths) // every function of the scope is judged on its own call sites
+		paths = OwnOnly(paths) // every function of the scope is judged on its own call sites (its helpers are in the scope themselves)
 		for i := range paths {
 			p := &paths[i]
 			for ci, e := range p.Ev {
